@@ -398,6 +398,7 @@ class Gen:
         self._emit_fn_text(key, sig, body, sig_line, body_line, s.path, indent, rl)
         for lf, cbody, cline in lifted:
             lkey = (container + "::" if container else "") + lf["name"]
+            cbody = self._inline_helpers(lkey, cbody, container, s.path, cline, lf["sig"])
             self._emit_fn_text(lkey, indent + lf["sig"] + "\n" + indent, cbody, cline, cline, s.path, indent, rl)
 
     def emit_sigshim(self, alias, container, name, opts):
@@ -452,10 +453,11 @@ class Gen:
         known = self._known_methods()
         containers = [container] if container else []
         containers += [it[2] for it in self.unit["items"] if it[0] == "impl" and it[2] not in containers]
+        containers += [c_ for c_ in self.unit.get("inline_containers", []) if c_ not in containers]
         for _ in range(6):
             mb = mask(body)
             hit = None
-            for mm in re.finditer(r"(?<![\w.:!])(\w+\s*\.|Self\s*::|)\s*\b(\w+)\s*\(", mb):
+            for mm in re.finditer(r"(?<![\w.:!\]])(\w+\s*\[\s*\w+\s*\]\s*\.|\w+\s*\.|Self\s*::|)\s*\b(\w+)\s*\(", mb):
                 name = mm.group(2)
                 if name in known or (mm.group(1) == "" and (name in _RUST_WORDS or name[0].isupper())):
                     continue
